@@ -377,16 +377,27 @@ where
             &mut self.radio_buffer,
             &SendData { data, fport, confirmed },
         )?;
-        // Transmit our data packet
-        let ms = self
-            .radio
-            .tx(tx_config, self.radio_buffer.as_ref_for_read())
-            .await
-            .map_err(Error::Radio)?;
+        // Transmit our data packet.
+        // From here on the frame is in the hands of the radio. Whatever goes wrong, its frame
+        // counter must never be used for another frame: finish the receive procedure at the
+        // MAC level on every error path so that FCntUp moves on.
+        let ms = match self.radio.tx(tx_config, self.radio_buffer.as_ref_for_read()).await {
+            Ok(ms) => ms,
+            Err(e) => {
+                let _ = self.mac.rx2_complete();
+                return Err(Error::Radio(e));
+            }
+        };
 
         // Wait for received data within window
         self.timer.reset();
-        Ok(self.rx_downlink(&Frame::Data, ms, &rx_windows).await?.into())
+        match self.rx_downlink(&Frame::Data, ms, &rx_windows).await {
+            Ok(response) => Ok(response.into()),
+            Err(e) => {
+                let _ = self.mac.rx2_complete();
+                Err(e)
+            }
+        }
     }
 
     /// Take the downlink data from the device. This is typically called after a
